@@ -56,6 +56,7 @@ class FnSpec:
         self.result = None
         self.selfmut = False
         self.literals = False
+        self.strlits = False
         self.refpats = []
         self.sites = {}        # site key -> [lines]
 
@@ -69,7 +70,7 @@ def parse_sidecar(path):
         line = raw.rstrip()
         s = line.strip()
         is_directive = (s.startswith("@") or s.startswith("item ") or s.startswith("use_item ") or s.startswith("use_contract ") or s.startswith("region ")
-                        or s in ("keep_attrs", "selfmut", "literals") or s.startswith("subst ") or s.startswith("delete ") or s.startswith("replace ")
+                        or s in ("keep_attrs", "selfmut", "literals", "strlits") or s.startswith("subst ") or s.startswith("delete ") or s.startswith("replace ")
                         or re.match(r"(fn|result|refpat) \w+$", s) is not None)
         if cur_site is not None and not is_directive:
             cur_site.append(raw)
@@ -172,6 +173,9 @@ def parse_sidecar(path):
         elif s == "literals":
             cur_fn.literals = True
             cur_site = None
+        elif s == "strlits":
+            cur_fn.strlits = True
+            cur_site = None
         elif s.startswith("refpat "):
             cur_fn.refpats.append(s[7:].strip())
             cur_site = None
@@ -254,6 +258,18 @@ def instrument_fn(ftext, fspec, ed, base, rules, label, contract_of=None):
             ax.append("assume(%s@ == seq![%s]);" % (lit, ", ".join("%du8" % b for b in bs)))
         if ax:
             body_start_txt = "proof { // literal axioms generated from the literal tokens\n" + "\n".join(ax) + "\n}\n" + body_start_txt
+    strlit_txt = ""
+    if fspec.strlits:
+        # string literals get their meaning from Verus' reveal_strlit, generated from the literal tokens of this fn;
+        # loops are verified in isolation, so the reveal is repeated at the start of every loop body
+        seen = []
+        for q in range(an.body_open + 1, an.body_close):
+            tk = st[q]
+            if tk.kind == "str" and tk.text.startswith('"') and tk.text not in seen:
+                seen.append(tk.text)
+        if seen:
+            strlit_txt = "proof { " + " ".join("reveal_strlit(%s);" % l_ for l_ in seen) + " }\n"
+            body_start_txt = strlit_txt + body_start_txt
     if fspec.selfmut:
         # R4: `mut self` receiver -> `self` + `let mut self_ = self;` + self -> self_ in the body
         p = an.params_open + 1
@@ -275,6 +291,10 @@ def instrument_fn(ftext, fspec, ed, base, rules, label, contract_of=None):
         else:
             ed.insert(base + st[an.body_close].start, t + "\n")
     loops = an.loops()
+    if strlit_txt:
+        for (_kw, bo_, _bc, _kind) in loops:
+            if ("loop %d start" % loops.index((_kw, bo_, _bc, _kind))) not in sites:
+                ed.insert(base + st[bo_].end, "\n" + strlit_txt)
     for key in list(sites):
         m = re.match(r"loop (\d+) (header|start|end|iter)$", key)
         if m:
@@ -286,7 +306,7 @@ def instrument_fn(ftext, fspec, ed, base, rules, label, contract_of=None):
             if m.group(2) == "header":
                 ed.insert(base + st[bo].start, "\n" + txt + "\n")
             elif m.group(2) == "start":
-                ed.insert(base + st[bo].end, "\n" + txt + "\n")
+                ed.insert(base + st[bo].end, "\n" + strlit_txt + txt + "\n")
             elif m.group(2) == "end":
                 ed.insert(base + st[bc].start, txt + "\n")
             else:
@@ -531,6 +551,7 @@ def build_unit(spec, repo=REPO):
 def _build_unit(spec, repo=REPO):
     g = Generated()
     rsx.FMT_LITS.clear()
+    rsx.FMT_LITSC.clear()
     rsx.IO_UNWRAP.clear()
     rsx.IO_UNWRAP.update(spec.get("io_unwrap", []))
     cdir = os.path.join(VERIF, "contracts")
@@ -756,6 +777,11 @@ def _build_unit(spec, repo=REPO):
             if ("fn vlit_%s()" % hx) not in have_:
                 defs_.append("#[verifier::opaque] pub open spec fn vlit_%s() -> Seq<u8> { seq![%s] }   // %r" % (hx, ", ".join("%du8" % b for b in bs), bs))
         parts.append("// ---- generated: format-string literal pieces (rule R9)\n" + "\n".join(defs_) + "\n\n")
+    if rsx.FMT_LITSC:
+        defs_ = []
+        for hx, bs in sorted(rsx.FMT_LITSC.items()):
+            defs_.append("pub open spec fn vlitc_%s() -> Seq<char> { seq![%s] }   // %r" % (hx, ", ".join("%du8 as char" % b for b in bs), bs))
+        parts.append("// ---- generated: format-string literal pieces as characters (rule R12)\n" + "\n".join(defs_) + "\n\n")
     for p in spec["postamble"]:
         parts.append("// ---- postamble %s\n" % p)
         parts.append(open(os.path.join(cdir, p)).read())
